@@ -334,6 +334,17 @@ def run(chk, repo, tier):
                 'the property set and carries exactly those keys',
            found=found)
 
+    # ---- R01.10 a constituent without the datum raises -----------------------
+    # (the estimate's sum propagates whatever its constituents raise, R01.1;
+    # the constituents are ThermochemIncomplete objects)
+    from .. import reviewed as _rv
+    for mname in ('get_CpoR', 'get_HoRT', 'get_SoR'):
+        _rv.check(chk, 'R01.10', repo, 'pgradd/ThermoChem/incomplete.py',
+                  'ThermochemIncomplete.' + mname,
+                  'ThermochemIncomplete.%s raises IncompleteDataError under '
+                  'the reviewed conditions (absent datum, no heat-capacity '
+                  'data, temperature outside the table)' % mname,
+                  mode='raises')
     # ---- R01.8 purity ---------------------------------------------------
     from ..effects import FuncEffects, describe
     pure = [(LIB, estf)] + [(GD, methods[m]) for m in
